@@ -1098,6 +1098,69 @@ def op_c15(case):
 
 
 # ---------------------------------------------------------------------------------------------
+# TwoPass conformance: which diagnostic rules run in which pass (wrappers on the class, no change to the code)
+# ---------------------------------------------------------------------------------------------
+_pass_state = {"passes": 0, "inv_off": 0, "inv_first": 0, "inv_second": 0, "inv_unguarded": 0}
+_UNGUARDED = {"invalid_import", "invalid_parameters", "invalid_lambda_parameters"}     # TwoPass.tla: UnguardedSite
+
+
+def _instrument_passes():
+    cls = P()
+    if cls.__dict__.get("_verif_pass_instrumented"):
+        return
+    for name, f in list(cls.__dict__.items()):
+        if name.startswith("invalid_") and callable(f):
+            def mk(f, name=name):
+                def counted(self, *a, **k):
+                    st = _pass_state
+                    if name in _UNGUARDED and (not self.call_invalid_rules or st["passes"] < 2):
+                        st["inv_unguarded"] += 1
+                    elif not self.call_invalid_rules:
+                        st["inv_off"] += 1
+                    elif st["passes"] < 2:
+                        st["inv_first"] += 1
+                    else:
+                        st["inv_second"] += 1
+                    return f(self, *a, **k)
+                return counted
+            setattr(cls, name, mk(f))
+    for start in ("file", "eval"):
+        f = cls.__dict__.get(start)
+        if f is not None:
+            def mk2(f):
+                def entered(self, *a, **k):
+                    _pass_state["passes"] += 1
+                    return f(self, *a, **k)
+                return entered
+            setattr(cls, start, mk2(f))
+    cls._verif_pass_instrumented = True
+
+
+def op_c15_pass(case):
+    """one program under (verbose off, verbose on): outcome class, passes, diagnostic-rule invocations per pass"""
+    import contextlib
+
+    _instrument_passes()
+    out = []
+    for verbose in (False, True):
+        for k in _pass_state:
+            _pass_state[k] = 0
+        arm()
+        try:
+            with contextlib.redirect_stdout(io.StringIO()):
+                P().parse_string(case["src"], mode=case.get("mode", "exec"), verbose=verbose)
+            outcome = "tree"
+        except HangTimeout:
+            outcome = "hang"
+        except SyntaxError:
+            outcome = "syntaxerror"
+        except BaseException:  # noqa: BLE001
+            outcome = "other"
+        out.append(dict(_pass_state, outcome=outcome, verbose=verbose))
+    return {"points": out}
+
+
+# ---------------------------------------------------------------------------------------------
 # C17: generated parser for a small grammar, run on token strings
 # ---------------------------------------------------------------------------------------------
 def _project_value(v):
